@@ -213,20 +213,20 @@ def respond (req : Sexp) : Sexp :=
   | .list [.atom "fol_parse", .atom kind, .str text] =>
     match kind with
     | "theory" =>
-      match Fol.parseTheory text with
+      match Fol.parseTheoryChecked text with
       | some t => .list [.atom "ok", theoryToSexp t]
       | none => .list [.atom "error"]
     | "spec" =>
-      match Fol.parseSpecification text with
+      match Fol.parseSpecificationChecked text with
       | some t => .list [.atom "ok", .list (t.map SAnn.toSexp)]
       | none => .list [.atom "error"]
     | "ug" =>
-      match Fol.parseUserGuide text with
+      match Fol.parseUserGuideChecked text with
       | some t => .list [.atom "ok", .list (t.map UGEntry.toSexp)]
       | none => .list [.atom "error"]
     | _ => bad
   | .list [.atom "asp_parse", .str text] =>
-    match Asp.parseProgram text with
+    match Asp.parseProgramChecked text with
     | some p => .list [.atom "ok", Asp.programToSexp p]
     | none => .list [.atom "error"]
   | .list [.atom "print_program", p] =>
